@@ -32,8 +32,17 @@ def make_content(rng, n_pixels, n_runs, title, unit_variant, strings):
                 en = en.transpose(['energy_transfer', 'detector']).copy()
         else:
             en = sc.array(dims=['energy_transfer'], values=rng.uniform(-5, 5, int(rng.integers(1, 5))), unit=eu)
+        # energies may be supplied as float32 or integers in another unit than meV: the record holds them in meV as doubles
+        # (converted in double precision, not in the dtype they came in)
+        edt = ['float64', 'float32', 'int64', 'float64'][(unit_variant + r) % 4]
+        if edt == 'int64':
+            efix = sc.scalar(int(rng.integers(1001, 99999)), unit=eu, dtype='int64')
+            en = sc.array(dims=en.dims, values=np.round(en.values * 977).astype('int64'), unit=eu) if not en_2d else en
+        else:
+            efix = sc.scalar(float(rng.uniform(1, 100)), unit=eu, dtype=edt)
+            en = en.to(dtype=edt) if not en_2d else en
         exps.append(sqw.SqwIXExperiment(
-            run_id=r, efix=sc.scalar(float(rng.uniform(1, 100)), unit=eu), emode=em,
+            run_id=r, efix=efix, emode=em,
             en=en,
             psi=sc.scalar(float(rng.uniform(-180, 180)), unit=ang), u=sc.vector(rng.normal(size=3)), v=sc.vector(rng.normal(size=3)),
             omega=sc.scalar(float(rng.uniform(-3, 3)), unit=ang), dpsi=sc.scalar(float(rng.uniform(-3, 3)), unit=ang),
@@ -201,15 +210,15 @@ def check_content(w, content, order, title):
             for r, (e, s) in enumerate(zip(ex, content['experiments'])):
                 if int(e['run_id']) != s.run_id + 1:
                     probs.append(f"run {r}: stored run_id {e['run_id']} is not 1-based id {s.run_id + 1}")
-                if not np.allclose(np.atleast_1d(e['efix']), s.efix.to(unit='meV').values, rtol=1e-14):
+                if not np.allclose(np.atleast_1d(e['efix']), s.efix.to(dtype='float64').to(unit='meV').values, rtol=1e-14):
                     probs.append(f'run {r}: efix not in meV')
                 if s.en.ndim == 2:
-                    want_en = s.en.transpose(['detector', 'energy_transfer']).to(unit='meV').values
+                    want_en = s.en.transpose(['detector', 'energy_transfer']).to(dtype='float64').to(unit='meV').values
                     got_en = np.asarray(e['en'])
                     if got_en.shape != want_en.shape or not np.allclose(got_en, want_en, rtol=1e-14):
                         probs.append(f'run {r}: 2-d en (per detector) not stored as [detector, energy_transfer] in meV: shape {got_en.shape}, '
                                      f'first row {got_en.reshape(-1)[:3]} vs {want_en[0][:3]}')
-                elif not np.allclose(np.asarray(e['en']).ravel(), s.en.to(unit='meV').values, rtol=1e-14):
+                elif not np.allclose(np.asarray(e['en']).ravel(), s.en.to(dtype='float64').to(unit='meV').values, rtol=1e-14):
                     probs.append(f'run {r}: en not in meV')
                 for a in ('psi', 'omega', 'dpsi', 'gl', 'gs'):
                     if not np.isclose(e[a], getattr(s, a).to(unit='rad').value, rtol=1e-14, atol=0):
@@ -268,6 +277,8 @@ def check_package_reader(data, content, order, title, byteorder):
             if not (a.unit is None and b.unit is None):
                 probs.append(f'{what}: unit {b.unit} read, {a.unit} supplied')
             return
+        if a.dtype in (sc.DType.int64, sc.DType.int32, sc.DType.float32):
+            a = a.to(dtype='float64')        # what was supplied, as a double (the unit conversion must not round in a narrower type)
         try:
             bb = b.to(unit=a.unit)
         except sc.UnitError:
